@@ -17,7 +17,7 @@ COQ_AGREE = 'agree'
 REPLAY_KIND = 'input'
 EXHAUSTIVE = {'quick': False, 'thorough': False}
 IMPL_TIMEOUT = 1200
-RULE = ('seven kinds of cases. build: DBConnection.uri() then _parseURI on components drawn from an alphabet of every '
+RULE = ('eight kinds of cases. open_seq: 2-4 connectionForURI calls in one process with a fresh opener cache (raw URIs with query/fragment, keyword-argument opens, self-reported URIs of sibling files whose NAMES contain ? = # & % or their percent-spelling, repeats), every file carrying its own marker row, judged after every call.  build: DBConnection.uri() then _parseURI on components drawn from an alphabet of every '
         'URI-reserved character, unreserved ones, %, hex digits, whitespace/control, 2/3/4-byte UTF-8 boundary code points '
         '(lengths 0..6; every alphabet character alone and next to a letter in every slot; None vs ""), ports None, 0, 1, 80, '
         '65535, 65536, negative, huge, str, hosts valid (incl. IPv6 addresses) and malformed, dbNames valid and malformed; parse: _parseURI/urlparse '
@@ -43,7 +43,9 @@ TRUSTED_BASE = [
     '_userinfo/_hostinfo/hostname/port, parse_qsl with default flags; validated against the interpreter on every case, not verified',
     'coq/Model/Uri.v parse_uri: hand transcription of DBConnection._parseURI (incl. the os.name == "nt" block, exercised by '
     'patching os.name in the harness); open_uri: scheme dispatch of connectionForURI for the sqlite scheme only (per-URI '
-    'connection cache and instance names not modelled)',
+    'connection cache and instance names not modelled); open_seq: the per-URI cache of connectionForURI keyed by the URI text '
+    '(gen_uri.py checks the lookup/store statements literally and fails closed); `uri += "?" + urlencode(args)` for keyword '
+    'arguments is applied by the harness, not modelled',
     'coq/Lib/UriPy.v valid_ipv4/valid_ipv6/check_bracketed: hand transcription of ipaddress.IPv4Address/IPv6Address string parsing '
     'and of urllib.parse._check_bracketed_host (validated on every bracketed case, not verified)',
     'outside the model (answer RUnm, not compared, excluded from the theorems): non-ASCII netloc (_checknetloc needs NFKC; '
@@ -285,6 +287,68 @@ def random_filename(rng):
             return s
 
 
+SEQ_ARGS = [['timeout', '30'], ['timeout', '5'], ['cache', '0'], ['cache', '1'], ['autoCommit', '0'], ['autoCommit', '1'],
+            ['check_same_thread', 'false']]
+
+
+def seq_family(rng, base=None):
+    """file names of one directory whose self-reported URIs spell, percent-encoded, the delimiters of raw URIs of their siblings"""
+    base = base or rng.choice(['data.db', 'a', 'x y', 'd%b', '\u00e9.db', 'q&r', 'p=q']) 
+    args = rng.sample(SEQ_ARGS, rng.randint(1, 2))
+    if len({a for a, _ in args}) < len(args):
+        args = args[:1]
+    q = '&'.join('%s=%s' % (a, b) for a, b in args)
+    frag = rng.choice(['f', 'x=1', '?'])
+    files = [base, base + '?' + q, base + '#' + frag, base + '%3F' + q.replace('=', '%3D').replace('&', '%26'),
+             own_enc(base), base + '?' + q + '#' + frag, base + '%23' + frag]
+    seen, out = set(), []
+    for f in files:
+        if f not in seen:
+            seen.add(f)
+            out.append(f)
+    return out, args, frag
+
+
+def seq_case(files, steps):
+    return {'k': 'open_seq', 'files': files, 'steps': steps}
+
+
+def gen_seq_systematic(rng):
+    out = []
+    for base in ('data.db', 'x y', 'd%b'):
+        files, args, frag = seq_family(rng, base)
+        n = len(files)
+        for j in range(1, n):
+            out.append(seq_case(files, [['raw', 0, args, None], ['self', j]]))
+            out.append(seq_case(files, [['self', j], ['raw', 0, args, None]]))
+            out.append(seq_case(files, [['kw', 0, args], ['self', j], ['again', 0]]))
+            out.append(seq_case(files, [['self', j], ['raw', 0, [], frag], ['self', 0], ['again', 0]]))
+        for i in range(n):
+            for j in range(n):
+                if i != j:
+                    out.append(seq_case(files, [['self', i], ['self', j], ['again', 0]]))
+    return out
+
+
+def random_seq(rng):
+    files, args, frag = seq_family(rng, None if rng.random() < 0.7 else random_filename(rng))
+    steps = []
+    for _ in range(rng.randint(2, 4)):
+        r = rng.random()
+        i = rng.randrange(len(files))
+        if r < 0.4:
+            steps.append(['self', i])
+        elif r < 0.65:
+            steps.append(['raw', i if rng.random() < 0.3 else 0, args if rng.random() < 0.8 else [], frag if rng.random() < 0.3 else None])
+        elif r < 0.8:
+            steps.append(['kw', i if rng.random() < 0.3 else 0, args])
+        elif steps:
+            steps.append(['again', rng.randrange(len(steps))])
+        else:
+            steps.append(['self', i])
+    return seq_case(files, steps)
+
+
 def corpus():
     return [
         # witnesses of the fixed findings (16d4528: ports, c19d57f: IPv6 host) and of the open ones
@@ -300,6 +364,9 @@ def corpus():
         build_case('mysql', 'u', 'p', 'Hh%Zone', 1, 'db'),
         parse_case('mysql://h:8\t0/db'),
         parse_case('http://h/a/b;p/c;q?x'),
+        # round-3 seed c18_opener_cache_keyed_by_decoded_uri: a raw query of one file = the encoded name of its sibling
+        seq_case(['data.db', 'data.db?timeout=30'], [['kw', 0, [['timeout', '30']]], ['self', 1]]),
+        seq_case(['data.db', 'data.db?timeout=30'], [['self', 1], ['raw', 0, [['timeout', '30']], None], ['again', 0]]),
     ]
 
 
@@ -339,6 +406,9 @@ def generate(rng, tier):
         args = rng.sample([['debug', '1'], ['cache', '0'], ['autoCommit', '0'], ['timeout', '5'], ['debugOutput', 'yes'],
                            ['check_same_thread', 'false']], rng.randint(0, 3))
         out.append({'k': 'sqlite_params', 'name': random_filename(rng), 'args': args})
+    # sequences of opens in one process
+    out += gen_seq_systematic(rng)
+    out += [random_seq(rng) for _ in range(5000 if big else 700)]
     # urllib primitives
     safes = ['', '/', '/:', '%', ':@', '\u00e9/', '~!', 'aZ%/']
     for ch in ALPHABET:
@@ -385,6 +455,8 @@ def search_cases(rng, tier):
         out.append(sqlite_case('/' + rstr(rng, ALPHABET, 6)))
     for i in range(400):
         out.append({'k': 'sqlite_file', 'name': random_filename(rng), 'val': i})
+    out += gen_seq_systematic(rng)
+    out += [random_seq(rng) for _ in range(3000)]
     return out
 
 
@@ -533,6 +605,66 @@ def run_impl(cases):
                     o['uri'] = c1.uri()
                     o.update(parse_obs(o['uri'], False))
                     c1.close()
+            elif k == 'open_seq':
+                import sqlite3
+                from urllib.parse import urlencode
+                counter[0] += 1
+                d = os.path.join(work, 's%d' % counter[0])
+                os.makedirs(d)
+                conns = []
+                try:
+                    paths = [os.path.join(d, f) for f in c['files']]
+                    for i, pth in enumerate(paths):      # every file gets its own marker row, written without SQLObject
+                        db = sqlite3.connect(pth)
+                        db.execute('CREATE TABLE verif_c18 (x INT)')
+                        db.execute('INSERT INTO verif_c18 VALUES (%d)' % (100 + i))
+                        db.commit()
+                        db.close()
+                    dbconnection.TheURIOpener.cachedURIs.clear()      # a fresh opener cache per sequence
+                    last_nt[0] = False
+                    o = {'dir': d, 'steps': []}
+                    for st in c['steps']:
+                        so = {}
+                        kw = {}
+                        if st[0] == 'raw':
+                            uri = 'sqlite://' + own_enc(paths[st[1]], keep='/')
+                            if st[2]:
+                                uri += '?' + '&'.join('%s=%s' % (a, b) for a, b in st[2])
+                            if st[3] is not None:
+                                uri += '#' + st[3]
+                            eff = uri
+                        elif st[0] == 'kw':
+                            uri = 'sqlite://' + own_enc(paths[st[1]], keep='/')
+                            kw = dict((a, b) for a, b in st[2])
+                            eff = uri + '?' + urlencode(kw)
+                        elif st[0] == 'self':
+                            own = SQLiteConnection(paths[st[1]])
+                            uri = eff = own.uri()
+                        else:
+                            uri = eff = o['steps'][st[1]]['uri']
+                        so['uri'] = eff
+                        try:
+                            cn = connectionForURI(uri, **kw)
+                            so['opened'], so['err'] = cn.filename, None
+                            so['same_as'] = [j for j, other in enumerate(conns) if other is cn]
+                            try:
+                                so['rows'] = [list(r) for r in cn.queryAll('SELECT x FROM verif_c18')]
+                            except Exception as e:
+                                so['rows'] = exn_name(e)
+                            conns.append(cn)
+                        except Exception as e:
+                            so['opened'], so['err'], so['same_as'], so['rows'] = None, exn_name(e), [], None
+                            conns.append(None)
+                        o['steps'].append(so)
+                finally:
+                    for cn in conns:
+                        try:
+                            if cn is not None:
+                                cn.close()
+                        except Exception:
+                            pass
+                    dbconnection.TheURIOpener.cachedURIs.clear()
+                    shutil.rmtree(d, ignore_errors=True)
             else:
                 o = {'crash': 'unknown kind %r' % k}
         except Exception as e:
@@ -612,6 +744,8 @@ def coq_case(c, o):
             p = op = 'None'
         unm = o.get('uri') is not None and uri_unmodelled(o['uri'])
         return '(KSqlite %s %s %s %s %s %s)' % (cbool(c.get('nt', False)), cbool(unm), cuv(fn), cotext(o.get('uri'), o.get('err')), p, op)
+    if k == 'open_seq':
+        return '(KSeq [%s])' % '; '.join('(%s, %s)' % (cstr(so['uri']), cotext(so['opened'], so['err'])) for so in o['steps'])
     if k == 'sqlite_params':
         return '(KOpen false %s %s %s)' % (cbool(uri_unmodelled(o['uri0'], True)), cstr(o['uri0']), cotext(o['opened0'], o['oerr0']))
     raise ValueError(k)
@@ -779,8 +913,38 @@ def oracle_prims(c, o):
     return None
 
 
+def seq_targets(c):
+    t = []
+    for st in c['steps']:
+        t.append(t[st[1]] if st[0] == 'again' else st[1])
+    return t
+
+
+def oracle_seq(c, o):
+    """after every open of the sequence: the connection handed out has the filename of the file the URI names, sees that
+    file's marker row, and is not the connection object of a different database"""
+    import os
+    targets = seq_targets(c)
+    for n, (st, so, t) in enumerate(zip(c['steps'], o['steps'], targets)):
+        want = os.path.join(o['dir'], c['files'][t])
+        where = 'open #%d (%s of %r, URI %r) after %r' % (n + 1, st[0], c['files'][t], so['uri'], [x['uri'] for x in o['steps'][:n]])
+        if so['err'] is not None:
+            return fail('%s raised %s' % (where, so['err']), got=o)
+        if so['opened'] != want:
+            return fail('%s handed out the connection of %r' % (where, os.path.basename(so['opened'])), got=o)
+        if so['rows'] != [[100 + t]]:
+            return fail('%s reads %r, the file holds %r' % (where, so['rows'], [[100 + t]]), got=o)
+        for j in so['same_as']:
+            if targets[j] != t:
+                return fail('%s shares its connection object with open #%d of the different database %r' % (
+                    where, j + 1, c['files'][targets[j]]), got=o)
+    return None
+
+
 def oracle(c, o):
     k = c['k']
+    if k == 'open_seq':
+        return oracle_seq(c, o)
     if k == 'build':
         return oracle_build(c, o)
     if k == 'parse':
@@ -819,6 +983,8 @@ def nontrivial(c, o):
         return needs_work(fn[1:] if isinstance(fn, str) and fn.startswith('/') else fn) or not isinstance(fn, str)
     if k == 'sqlite_params':
         return bool(c['args'])
+    if k == 'open_seq':
+        return len(set(seq_targets(c))) > 1
     if k == 'quote':
         return o.get('out') != c['s']
     if k == 'unquote':
@@ -904,6 +1070,12 @@ def distribution(cases, obs):
                 d['parse_nt'] += 1
         if k == 'sqlite_file' and o.get('rows') == [[c['val']]]:
             d['sqlite_same_file_seen'] += 1
+        if k == 'open_seq':
+            d['seq_opens'] = d.get('seq_opens', 0) + len(o['steps'])
+            d['seq_cache_hits'] = d.get('seq_cache_hits', 0) + sum(1 for so in o['steps'] if so['same_as'])
+            names = {c['files'][t] for t in seq_targets(c)}
+            if any(own_enc(a, keep='/') != a and any(('?' in so['uri'] or '#' in so['uri']) for so in o['steps']) for a in names):
+                d['seq_encoded_name_next_to_raw_delimiter'] = d.get('seq_encoded_name_next_to_raw_delimiter', 0) + 1
     return d
 
 
